@@ -43,3 +43,27 @@ def fgg_roundtrip(fggs, torch, spec, patterned):
         if z1.shape != z2.shape or not torch.allclose(z1.nan_to_num(posinf=1e30), z2.nan_to_num(posinf=1e30)):
             p.append('sum_product differs after the round trip')
     return p
+
+
+def weights_json_roundtrip(fggs, w, cvals):
+    """json_to_weights(spec) -> weights_to_json must be the nested list of the tensor the specification describes"""
+    import itertools
+    from oracles import c14_run as R
+    from fggs.factors import weights_to_json
+    pyd = lambda x: {'inf': math.inf, '-inf': -math.inf}.get(x, x) if isinstance(x, str) else x
+    j = {'physical': R.nest(cvals, w['pshape'])}
+    for key in ('expand', 'vaxes'):
+        if key in w:
+            j[key] = w[key]
+    j['default'] = pyd(w.get('default', 0.))
+    t = fggs.json_to_weights(j)
+    shape, cells, default = R.described_tensor(w, cvals)
+    want = R.nest([cells.get(ix, pyd(default)) for ix in itertools.product(*[range(m) for m in shape])], list(shape)) if shape else cells.get((), pyd(default))
+    try:
+        got = weights_to_json(t)
+        json.dumps(got)
+    except Exception as e:      # noqa
+        return [f'weights_to_json failed: {type(e).__name__}: {e}']
+    if got != want:
+        return [f'weights_to_json gives {got}, the specification describes {want}']
+    return []
